@@ -12,6 +12,7 @@ import (
 	"encoding/json"
 	"fmt"
 	"os"
+	"os/exec"
 	"strings"
 
 	"github.com/akrennmair/updog"
@@ -21,7 +22,8 @@ import (
 
 type C06Case struct {
 	Data     Dataset `json:"data"`
-	Writer   string  `json:"writer"`  // mem-file | mem-db | big | cli | cli-big
+	Writer   string  `json:"writer"`  // mem-file | mem-db | big | cli | cli-big | kill | kill-big (real binary, SIGKILL at the N-th pwrite64)
+	Kills    []int   `json:"kills,omitempty"` // per-mille positions in the pwrite64 sequence at which the real process is killed
 	Samples  int     `json:"samples"` // sampled sub-commit crash images
 	WriteErr []WErr  `json:"write_errors"`
 	Queries  []*Query `json:"queries"`
@@ -41,6 +43,13 @@ func genC06(c *Ctx) any {
 	r := c.Rand("c06")
 	cs := &C06Case{}
 	cs.Writer = []string{"mem-file", "mem-file", "mem-db", "big", "cli", "cli-big"}[r.Intn(6)]
+	if r.Chance(1, 8) {
+		// supplementary process tier: the real `updog create` killed by SIGKILL at a seeded write
+		cs.Writer = []string{"kill", "kill-big"}[r.Intn(2)]
+		for i, n := 0, r.Range(3, 6); i < n; i++ {
+			cs.Kills = append(cs.Kills, r.Intn(1000))
+		}
+	}
 	// datasets on both sides of the 1000-value and 1000-row batches
 	vals := []int{0, 1, 5, 999, 1000, 1001, 2001, 3500}[r.Intn(8)]
 	rows := []int{1, 3, 50, 999, 1000, 1001, 2001}[r.Intn(7)]
@@ -64,7 +73,7 @@ func genC06(c *Ctx) any {
 		}
 		sp.Cols = append(sp.Cols, ColSpec{Name: S(colNames[i]), Card: card, Shape: "uniform", Kind: "num", Missing: []int{0, 0, 200}[r.Intn(3)]})
 	}
-	if strings.HasPrefix(cs.Writer, "cli") {
+	if strings.HasPrefix(cs.Writer, "cli") || strings.HasPrefix(cs.Writer, "kill") {
 		for i := range sp.Cols {
 			sp.Cols[i].Missing = 0 // CSV records carry every column
 		}
@@ -130,6 +139,73 @@ func csvField(s string) string {
 	return s
 }
 
+// recoverImages opens every image on demand and preloaded under the hang watchdog and
+// applies the oracle: rejected with an error, or equivalent to the complete index.
+func recoverImages(c *Ctx, v *Verdict, images []imageSpec, ref *RefIndex, queries []*Query) (bad *outc, progress string, res *simrt.Result) {
+	// recovery: open every image, on demand and preloaded, under the hang watchdog
+	c.Bubble(func() {
+		task := func() {
+			for ii, im := range images {
+				for _, pre := range []bool{false, true} {
+					progress = fmt.Sprintf("image %d (%s) preload=%v", ii, im.name, pre)
+					path := c.Path(fmt.Sprintf("img-%d-%v.updog", ii, pre))
+					if err := os.WriteFile(path, im.data, 0o644); err != nil {
+						bad = &outc{"harness", err.Error()}
+						return
+					}
+					var idx *updog.Index
+					var err error
+					var opts []updog.IndexOption
+					if pre {
+						opts = append(opts, updog.WithPreloadedData())
+					}
+					if p := guard(func() { idx, err = updog.OpenIndex(path, opts...) }); p != "" {
+						bad = &outc{"open-panic", fmt.Sprintf("%s: OpenIndex panicked: %s", progress, p)}
+						return
+					}
+					if err != nil {
+						v.Count("outcome_rejected", 1)
+						os.Remove(path)
+						continue
+					}
+					sig, det := probeIndex(idx, ref, "u", 300, c.Seed)
+					if sig == "" {
+						for _, q := range queries {
+							var r *updog.Result
+							var e error
+							if p := guard(func() { r, e = idx.Execute(q.ToUpdog()) }); p != "" {
+								sig, det = "panic", "Execute panicked: "+p
+								break
+							}
+							if dd := CompareResult(ref.Execute(q), r, e); dd != "" {
+								sig, det = "wrong-count", fmt.Sprintf("%s: %s", q, dd)
+								break
+							}
+						}
+					}
+					idx.Close()
+					os.Remove(path)
+					if sig != "" {
+						bad = &outc{"partial-index-accepted", fmt.Sprintf("%s: the image opens as an index but does not answer like the complete one (%s): %s", progress, sig, det)}
+						return
+					}
+					v.Count("outcome_equivalent", 1)
+				}
+				if im.mid {
+					v.NonTrivial = true
+					v.Count("crash_points_strictly_inside_creation", 1)
+				}
+			}
+		}
+		res = simrt.Run(simrt.Config{Strategy: "seq"}, []func(){task})
+	})
+	return bad, progress, res
+}
+
+type outc struct {
+	sig, detail string
+}
+
 type imageSpec struct {
 	name string
 	data []byte
@@ -149,6 +225,9 @@ func runC06(c *Ctx, body json.RawMessage) *Verdict {
 		}
 	}
 	rows := cs.Data.Expand()
+	if strings.HasPrefix(cs.Writer, "kill") {
+		return runC06Kill(c, &cs, v, rows)
+	}
 	if strings.HasPrefix(cs.Writer, "cli") {
 		// a CSV has one column set for all records
 		for _, r := range rows {
@@ -287,69 +366,7 @@ func runC06(c *Ctx, body json.RawMessage) *Verdict {
 	}
 	simrt.SetMapSeed(0)
 
-	// recovery: open every image, on demand and preloaded, under the hang watchdog
-	type outc struct {
-		sig, detail string
-	}
-	var bad *outc
-	progress := ""
-	var res *simrt.Result
-	c.Bubble(func() {
-		task := func() {
-			for ii, im := range images {
-				for _, pre := range []bool{false, true} {
-					progress = fmt.Sprintf("image %d (%s) preload=%v", ii, im.name, pre)
-					path := c.Path(fmt.Sprintf("img-%d-%v.updog", ii, pre))
-					if err := os.WriteFile(path, im.data, 0o644); err != nil {
-						bad = &outc{"harness", err.Error()}
-						return
-					}
-					var idx *updog.Index
-					var err error
-					var opts []updog.IndexOption
-					if pre {
-						opts = append(opts, updog.WithPreloadedData())
-					}
-					if p := guard(func() { idx, err = updog.OpenIndex(path, opts...) }); p != "" {
-						bad = &outc{"open-panic", fmt.Sprintf("%s: OpenIndex panicked: %s", progress, p)}
-						return
-					}
-					if err != nil {
-						v.Count("outcome_rejected", 1)
-						os.Remove(path)
-						continue
-					}
-					sig, det := probeIndex(idx, ref, "u", 300, c.Seed)
-					if sig == "" {
-						for _, q := range cs.Queries {
-							var r *updog.Result
-							var e error
-							if p := guard(func() { r, e = idx.Execute(q.ToUpdog()) }); p != "" {
-								sig, det = "panic", "Execute panicked: "+p
-								break
-							}
-							if dd := CompareResult(ref.Execute(q), r, e); dd != "" {
-								sig, det = "wrong-count", fmt.Sprintf("%s: %s", q, dd)
-								break
-							}
-						}
-					}
-					idx.Close()
-					os.Remove(path)
-					if sig != "" {
-						bad = &outc{"partial-index-accepted", fmt.Sprintf("%s: the image opens as an index but does not answer like the complete one (%s): %s", progress, sig, det)}
-						return
-					}
-					v.Count("outcome_equivalent", 1)
-				}
-				if im.mid {
-					v.NonTrivial = true
-					v.Count("crash_points_strictly_inside_creation", 1)
-				}
-			}
-		}
-		res = simrt.Run(simrt.Config{Strategy: "seq"}, []func(){task})
-	})
+	bad, progress, res := recoverImages(c, v, images, ref, cs.Queries)
 	v.Count("outcome_absent", 1) // "file does not exist yet" needs no recovery
 	v.Count("images_checked", int64(len(images)))
 	v.StateKey = simrt.Hash3(simrt.HashStr(cs.Writer), uint64(len(metaIdx)), uint64(bucket(len(rows))))
@@ -360,6 +377,83 @@ func runC06(c *Ctx, body json.RawMessage) *Verdict {
 	if res != nil {
 		for _, p := range res.Panics {
 			return v.Violate("open-panic", "%s: %s\n%s", progress, p.Value, trimStacks(p.Stack))
+		}
+	}
+	if bad != nil {
+		if bad.sig == "harness" {
+			return v.Harness("%s", bad.detail)
+		}
+		return v.Violate(bad.sig, "%s", bad.detail)
+	}
+	return v
+}
+
+// runC06Kill is the supplementary process tier: the real `updog create` runs under strace,
+// which delivers SIGKILL at the N-th pwrite64 of a thread; whatever the process left on disk
+// is an image for the same recovery oracle. Counting is per thread inside strace, so this
+// tier is not claimed to replay exactly (the deciding tier is the in-process one); a case
+// that fails here carries the image's description and the kill position.
+func runC06Kill(c *Ctx, cs *C06Case, v *Verdict, rows []Row) *Verdict {
+	for _, r := range rows {
+		if len(r) != len(rows[0]) {
+			return Invalid("ragged rows cannot be expressed as CSV")
+		}
+	}
+	if _, err := exec.LookPath("strace"); err != nil {
+		v.Count("skipped_no_strace", 1)
+		return v
+	}
+	bin := os.Getenv("VERIF_UPDOG_BIN")
+	ref := NewRefIndex(rows)
+	in := c.Path("in.csv")
+	if err := writeCSV(in, rows); err != nil {
+		return v.Harness("%v", err)
+	}
+	mode := []string{}
+	if cs.Writer == "kill-big" {
+		mode = []string{"-b"}
+	}
+	// count the writes of an undisturbed run
+	full := c.Path("full.updog")
+	log := c.Path("strace.log")
+	args := append([]string{"-f", "-e", "trace=pwrite64", "-o", log, bin, "create"}, mode...)
+	cmd := exec.Command("strace", append(args, "-o", full, in)...)
+	cmd.Env = append(os.Environ(), "TMPDIR="+c.Dir)
+	if out, err := cmd.CombinedOutput(); err != nil {
+		return v.Harness("strace baseline run failed: %v %s", err, clipStr(string(out), 500))
+	}
+	lb, _ := os.ReadFile(log)
+	nw := strings.Count(string(lb), "pwrite64(")
+	if nw == 0 {
+		return v.Harness("strace saw no pwrite64")
+	}
+	var images []imageSpec
+	for ki, pm := range cs.Kills {
+		n := 1 + pm*nw/1000
+		out := c.Path(fmt.Sprintf("killed-%d.updog", ki))
+		kargs := append([]string{"-f", "-e", "trace=pwrite64", "-e", fmt.Sprintf("inject=pwrite64:signal=SIGKILL:when=%d", n), "-o", "/dev/null", bin, "create"}, mode...)
+		kc := exec.Command("strace", append(kargs, "-o", out, in)...)
+		kc.Env = append(os.Environ(), "TMPDIR="+c.Dir)
+		_ = kc.Run()
+		v.Count("fault_sigkill_at_pwrite", 1)
+		b, err := os.ReadFile(out)
+		if err != nil {
+			v.Count("outcome_absent", 1)
+			continue
+		}
+		images = append(images, imageSpec{name: fmt.Sprintf("real `updog create %s` killed by SIGKILL at pwrite64 #%d of ~%d", strings.Join(mode, " "), n, nw), data: b, mid: true})
+		os.Remove(out)
+	}
+	bad, progress, res := recoverImages(c, v, images, ref, cs.Queries)
+	v.Count("images_checked", int64(len(images)))
+	v.StateKey = simrt.Hash3(simrt.HashStr(cs.Writer), uint64(nw), uint64(bucket(len(rows))))
+	if res != nil && (res.Hang || res.Deadlock) {
+		v.Fatal = true
+		return v.Violate("open-hang", "%s: opening never returned", progress)
+	}
+	if res != nil {
+		for _, p := range res.Panics {
+			return v.Violate("open-panic", "%s: %s", progress, p.Value)
 		}
 	}
 	if bad != nil {
